@@ -4,11 +4,13 @@
 (* pipelines offered to plugin codemods, and M2 generator over all small   *)
 (* documents.                                                              *)
 (* A document is a sequence of lines [m, f]: m = the pattern matches the   *)
-(* line, f = a finding is reported on the line.  mode "plain": every       *)
+(* line, f = the NUMBER of findings reported on the line (0, 1 or 2: a     *)
+(* tool may report several findings at one line).  mode "plain": every       *)
 (* matching line is edited; mode "sast": only matching lines that carry a  *)
 (* finding, and a finding on a line that does not match is reported as     *)
 (* unfixed.  One change per edited line, numbered with that line (1-based) *)
-(* and carrying exactly the findings of that line; every other line is     *)
+(* and carrying exactly the findings of that line, the line edited ONCE    *)
+(* however many findings it carries; every other line is                   *)
 (* byte-identical; nothing is written under dry-run.                       *)
 (***************************************************************************)
 EXTENDS Naturals, Sequences, FiniteSets, TLC
@@ -17,7 +19,7 @@ CONSTANT MaxLines
 
 VARIABLES d, exp, st
 
-Line == [m : BOOLEAN, f : BOOLEAN]
+Line == [m : BOOLEAN, f : 0..2]
 Docs == UNION {[1..n -> Line] : n \in 1..MaxLines}
 Scenarios == {[doc |-> x, mode |-> mo, eol |-> e, finalnl |-> fn, dry |-> dr] :
                 x \in Docs, mo \in {"plain", "sast", "sast-noresults"}, e \in {"lf", "crlf"}, fn \in BOOLEAN, dr \in BOOLEAN}
@@ -25,13 +27,13 @@ Scenarios == {[doc |-> x, mode |-> mo, eol |-> e, finalnl |-> fn, dry |-> dr] :
 Edited(s) ==
   {i \in 1..Len(s.doc) :
      CASE s.mode = "plain" -> s.doc[i].m
-       [] s.mode = "sast"  -> s.doc[i].m /\ s.doc[i].f
+       [] s.mode = "sast"  -> s.doc[i].m /\ s.doc[i].f > 0
        [] OTHER            -> FALSE}                       \* SAST use without any result: nothing is edited
 
 \* findings that must be attached to the change of line i: those reported on line i (and only those)
-ChangeFindings(s, i) == IF s.doc[i].f /\ s.mode # "sast-noresults" THEN {i} ELSE {}
+ChangeFindings(s, i) == IF s.mode # "sast-noresults" THEN {<<i, k>> : k \in 1..s.doc[i].f} ELSE {}
 
-Unfixed(s) == IF s.mode = "sast" THEN {i \in 1..Len(s.doc) : s.doc[i].f /\ ~s.doc[i].m} ELSE {}
+Unfixed(s) == IF s.mode = "sast" THEN UNION {{<<i, k>> : k \in 1..s.doc[i].f} : i \in {j \in 1..Len(s.doc) : ~s.doc[j].m}} ELSE {}
 
 Init == d \in Scenarios /\ st = "init" /\ exp = [edited |-> {}, findings |-> <<>>, unfixed |-> {}, writes |-> FALSE]
 Next == /\ st = "init" /\ st' = "done" /\ UNCHANGED d
@@ -42,5 +44,5 @@ Next == /\ st = "init" /\ st' = "done" /\ UNCHANGED d
 Spec == Init /\ [][Next]_<<d, exp, st>>
 
 LemmaEditedMatch == st = "done" => \A i \in exp.edited : d.doc[i].m
-LemmaSastNeedsFinding == (st = "done" /\ d.mode = "sast") => \A i \in exp.edited : d.doc[i].f
+LemmaSastNeedsFinding == (st = "done" /\ d.mode = "sast") => \A i \in exp.edited : d.doc[i].f > 0
 =============================================================================
